@@ -16,3 +16,4 @@ pub mod fuzz_entry;
 pub mod run;
 pub mod props;
 pub mod known;
+pub mod clock;
